@@ -13,7 +13,7 @@ import valgen
 import xv
 from xv import log
 
-CORPUS_VERSION = "12"
+CORPUS_VERSION = "14"
 
 BOUNDARY = [0, 1, 2, 3, 0xffff, 0x10000, 0x7fffffff, 0x80000000, 0xfffffffe, 0xffffffff]
 
@@ -31,8 +31,8 @@ ELEM_SPECS = [
     "struct lc5 { c5 items<>; unsigned int tail; };\nstruct lc6 { c6 items<N7>; unsigned int tail; };\nstruct lc7 { c7 items<>; };\n"
     "struct lct { ct items<>; ct two[2]; unsigned int tail; };\n",
     "typedef opaque t2[2];\nstruct es { string s<>; };\nstruct es5 { string s<5>; bool b; };\n"
-    "union eu switch (unsigned int k) { case 1: t2 tag; case 2: string s<>; case 3: es5 e; default: void; };\n"
-    "struct eo { int *p; opaque tag[1]; };\n"
+    "union eu switch (unsigned int k) { case 1: t2 tag; case 2: string s; case 3: es5 e; default: void; };\n"
+    "struct eo { es *p; opaque tag[1]; };\n"
     "struct ls { es items<>; unsigned int tail; };\nstruct ls5 { es5 items<4>; unsigned int tail; };\n"
     "struct lu { eu items<>; unsigned int tail; };\nstruct lo { eo items<>; eo two[2]; unsigned int tail; };\n",
     "enum colour { RED = 0, GREEN = 1, BLUE = 2 };\ntypedef colour clist<>;\n"
